@@ -23,7 +23,6 @@
 package actor
 
 import (
-	"sync"
 	"sync/atomic"
 )
 
@@ -44,17 +43,8 @@ type segment struct {
 	data [segmentSize]atomic.Pointer[ReceiveContext]
 }
 
-var segmentPool = sync.Pool{New: func() any { return new(segment) }}
-
 func newSegment() *segment {
-	seg := segmentPool.Get().(*segment)
-	seg.writeIdx.Store(0)
-	seg.deqIdx.Store(0)
-	seg.next.Store(nil)
-	for i := range seg.data {
-		seg.data[i].Store(nil)
-	}
-	return seg
+	return new(segment)
 }
 
 // UnboundedSegmentedMailbox is an unbounded, lock‑free MPSC mailbox that
@@ -73,8 +63,8 @@ func newSegment() *segment {
 //   - Hot‑path efficiency: producers reserve a slot by atomically incrementing a
 //     segment write index and store directly into a cache‑friendly array slot;
 //     the consumer reads sequentially via a dequeue index.
-//   - Low GC pressure: segments are pooled; steady‑state traffic typically
-//     performs zero allocations per message.
+//   - Low GC pressure: one allocation per segment (segmentSize messages);
+//     drained segments are reclaimed by the garbage collector.
 //   - Observability: IsEmpty is O(1); Len is an approximate atomic counter
 //     (best‑effort under concurrency) and intended for metrics, not strict
 //     synchronization.
@@ -114,7 +104,7 @@ var _ Mailbox = (*UnboundedSegmentedMailbox)(nil)
 // NewUnboundedSegmentedMailbox creates and initializes a
 // UnboundedSegmentedMailbox.
 //
-// The mailbox starts with a single, pooled segment and grows by linking new
+// The mailbox starts with a single segment and grows by linking new
 // segments as necessary. Choose this mailbox when you need an unbounded, fast
 // MPSC queue with good cache locality and low allocation rates.
 func NewUnboundedSegmentedMailbox() *UnboundedSegmentedMailbox {
@@ -167,7 +157,7 @@ func (m *UnboundedSegmentedMailbox) Enqueue(value *ReceiveContext) error {
 // Semantics
 //   - Returns nil if the mailbox is empty.
 //   - Amortized O(1) for the single consumer: read from the current segment;
-//     when a segment is drained, advance to the next pooled segment.
+//     when a segment is drained, advance to the next segment.
 //
 // Single‑consumer requirement
 //   - Must be called from exactly one goroutine. Multiple consumers are not
@@ -199,12 +189,11 @@ func (m *UnboundedSegmentedMailbox) Dequeue() *ReceiveContext {
 		if next == nil {
 			return nil
 		}
-		// recycle old head. Its next link is left intact (newSegment resets it on
-		// reuse): clearing it here would let a producer that is still inside
-		// newSegment for this former tail succeed with CAS(next, nil, newSeg) on the
-		// retired segment and move tail behind it, splitting the list.
+		// The drained segment is left to the garbage collector with its next link
+		// intact. It must not be recycled: a producer may still hold it as a stale
+		// tail pointer, and resetting the segment under that producer loses its
+		// message and wedges the queue.
 		m.head.Store(next)
-		segmentPool.Put(seg)
 		seg = next
 	}
 }
